@@ -168,10 +168,8 @@ dropped by the facade gate is "routed entirely under it" -/
 theorem prescribed_above_max (c : MiniCfg) (t : Target) (l : Level) (h : c.maxLevel < l) :
     prescribed (mkSnapshot c) t l = [] := by
   have := c.effective_le_max t
-  simp only [prescribed, mkSnapshot]
-  split
-  · omega
-  · rfl
+  have hn : ¬ (c.effective t).1 ≥ l := by omega
+  simp [prescribed, mkSnapshot, Snapshot.route, hn, resolve]
 
 /-! ### witnesses -/
 
